@@ -494,7 +494,7 @@ func stepDial(addr string, hostIsLiteral bool) stepResult {
 		ctx, cancel = context.WithCancel(context.Background())
 		cancel() // cancelled before the call: Go's dialer returns before any socket call
 	} else {
-		ctx, cancel = context.WithTimeout(context.Background(), 20*time.Second)
+		ctx, cancel = context.WithTimeout(context.Background(), 5*time.Minute)
 		defer cancel()
 		network = noDialNetwork // unknown network: Go's dialer fails before any socket call
 	}
